@@ -15,7 +15,7 @@ LEVEL = ("Generated-input exploration over lists of structures with varying numb
          "eleven orders of magnitude and random component partitions: values, shapes and order are compared with 1/(x (S^T S + alpha I)^-1 x^T) "
          "computed with an explicit inverse; positivity, scale invariance, monotonicity in alpha and the rank difference are checked. "
          "No absence claim: strength = the counted distinct non-trivial cases in the evidence.")
-BUDGET = {"quick": 700, "thorough": 10000}
+BUDGET = {"quick": 700, "thorough": 30000}
 RULE = ("Cases: 1..7 training structures and 1..4 test structures (thorough: 12 / 6) with 1..5 environments each (single-environment "
         "structures included), feature dimension 1..6 (thorough 10), per-structure offsets, alpha = 10^u with u in [-8,3] relative to "
         "the scaled covariance, a drawn composition of the feature dimension into component blocks, common rescaling factors 10^[-3,3]; "
